@@ -6,9 +6,11 @@ package sm
 
 import (
 	"encoding/binary"
+	"encoding/json"
 	"fmt"
 	"math"
 	"math/big"
+	"strings"
 
 	"github.com/db47h/decimal"
 
@@ -48,7 +50,12 @@ type Outcome struct {
 	Err     error       // error returned by Parse / GobDecode / ...
 	Rejects bool        // the call reported failure (parse error, decode error)
 	Note    string
+	Ret     string // read-only accessors: what they returned
 }
+
+// ReadOnly reports whether the step is an accessor: it has operands but no receiver (Z is ignored), and
+// must leave every variable exactly as it was.
+func ReadOnly(op string) bool { return strings.HasPrefix(op, "ro:") }
 
 type Machine struct {
 	V []*decimal.Decimal
@@ -150,6 +157,10 @@ func (m *Machine) Do(s Step) (out Outcome) {
 	}()
 	z := m.V[s.Z]
 	a := func(i int) *decimal.Decimal { return m.V[s.A[i]] }
+	if ReadOnly(s.Op) {
+		out.Ret = m.readOnly(s)
+		return
+	}
 	switch s.Op {
 	case "set":
 		z.Set(a(0))
@@ -233,6 +244,64 @@ func (m *Machine) Do(s Step) (out Outcome) {
 		panic(h.BuildError{Msg: "sm: unknown op " + s.Op})
 	}
 	return
+}
+
+// readOnly runs an accessor on operand A[0] (and A[1] for Cmp) and renders what it returned.
+func (m *Machine) readOnly(s Step) string {
+	x := m.V[s.A[0]]
+	switch s.Op {
+	case "ro:int":
+		i, acc := x.Int(nil)
+		return fmt.Sprint(i, acc)
+	case "ro:int-into":
+		i, acc := x.Int(new(big.Int).Lsh(big.NewInt(-7), 300))
+		return fmt.Sprint(i, acc)
+	case "ro:int64":
+		i, acc := x.Int64()
+		return fmt.Sprint(i, acc)
+	case "ro:uint64":
+		i, acc := x.Uint64()
+		return fmt.Sprint(i, acc)
+	case "ro:rat":
+		r, acc := x.Rat(nil)
+		return fmt.Sprint(r, acc)
+	case "ro:rat-into":
+		r, acc := x.Rat(big.NewRat(-22, 7))
+		return fmt.Sprint(r, acc)
+	case "ro:float64":
+		f, acc := x.Float64()
+		return fmt.Sprint(math.Float64bits(f), acc)
+	case "ro:float32":
+		f, acc := x.Float32()
+		return fmt.Sprint(math.Float32bits(f), acc)
+	case "ro:float":
+		f := x.Float(new(big.Float).SetPrec(s.FP))
+		return f.Text('p', 0) + fmt.Sprint(f.Prec(), f.Acc())
+	case "ro:text":
+		return x.Text(s.S[0], int(s.Exp))
+	case "ro:append":
+		return string(x.Append([]byte("pfx"), s.S[0], int(s.Exp)))
+	case "ro:format":
+		return fmt.Sprintf(s.S, x)
+	case "ro:string":
+		return x.String()
+	case "ro:gobenc":
+		b, err := x.GobEncode()
+		return fmt.Sprint(b, err)
+	case "ro:marshaltext":
+		b, err := x.MarshalText()
+		return fmt.Sprint(string(b), err)
+	case "ro:marshaljson":
+		b, err := json.Marshal(x)
+		return fmt.Sprint(string(b), err)
+	case "ro:cmp":
+		y := m.V[s.A[1]]
+		return fmt.Sprint(x.Cmp(y), y.Cmp(x), x.Cmp(x))
+	case "ro:preds":
+		mant, e := x.BitsExp()
+		return fmt.Sprint(x.IsInt(), x.MinPrec(), x.Sign(), x.Signbit(), x.IsInf(), x.IsZero(), x.MantExp(nil), len(mant), e, x.Acc(), x.Prec(), x.Mode())
+	}
+	panic(h.BuildError{Msg: "sm: unknown accessor " + s.Op})
 }
 
 // ExpectedPrec0 returns the set of precisions the documentation allows for a
